@@ -371,6 +371,81 @@ pub fn control_program_shared(f: &[Node], last_body: bool) -> Prog {
 }
 
 // ---------------------------------------------------------------------------
+// Axis P: PRINT statements that leave the line open (trailing ; or ,) and the statement that continues it, across
+// loop iterations, branches and subprogram calls; FOR headers whose literal does not fit the counter.
+// ---------------------------------------------------------------------------
+
+pub fn print_continuation_programs() -> Vec<(Prog, String)> {
+    use PItem::*;
+    let firsts: Vec<(&str, Vec<PItem>)> = vec![
+        ("\"Totals:\";", vec![E(st("Totals:")), Semi]),
+        ("7;", vec![E(num(7)), Semi]),
+        ("\"ab\",", vec![E(st("ab")), Comma]),
+        ("\"abcdefghijklmno\";", vec![E(st("abcdefghijklmno")), Semi]),
+        ("\"abcdefghijklm\"; 5;", vec![E(st("abcdefghijklm")), Semi, E(num(5)), Semi]),
+    ];
+    let seconds: Vec<(&str, Vec<PItem>)> = vec![
+        ("1, 2", vec![E(num(1)), Comma, E(num(2))]),
+        (", \"z\"", vec![Comma, E(st("z"))]),
+        ("\"q\"", vec![E(st("q"))]),
+        ("; 5,", vec![Semi, E(num(5)), Comma]),
+        ("(nothing)", vec![]),
+    ];
+    let mut out = vec![];
+    for (fl, first) in &firsts {
+        for (sl, second) in &seconds {
+            for placement in 0..5 {
+                let mut b = B::new();
+                let p1 = |b: &mut B| b.s(K::Print { dev: Dev::Screen, using: None, items: first.clone() });
+                let p2 = |b: &mut B| b.s(K::Print { dev: Dev::Screen, using: None, items: second.clone() });
+                let mut main = vec![];
+                let mut subs = vec![];
+                let where_ = match placement {
+                    0 => {
+                        main.push(p1(&mut b));
+                        main.push(p2(&mut b));
+                        "one after the other"
+                    }
+                    1 => {
+                        let body = vec![p1(&mut b)];
+                        main.push(b.s(K::For { var: var("I%"), from: num(1), to: num(3), step: None, body, next_var: false }));
+                        main.push(p2(&mut b));
+                        "the first three times in a FOR loop, the second after it"
+                    }
+                    2 => {
+                        let a = vec![p1(&mut b)];
+                        main.push(b.s(K::If { arms: vec![(bin(BinOp::Eq, var("Z%"), num(0)), a)], els: None, single_line: false }));
+                        let mut body = vec![p2(&mut b)];
+                        body.push(b.assign(var("W%"), num(1)));
+                        main.push(b.s(K::While(bin(BinOp::Lt, var("W%"), num(1)), body)));
+                        "the first in an IF block, the second in a WHILE body"
+                    }
+                    3 => {
+                        let body = vec![p1(&mut b)];
+                        let id = b.id();
+                        subs.push(SubDef { id, name: "Lead".into(), is_function: false, params: vec![], body, is_static: false });
+                        main.push(b.s(K::Call("Lead".into(), vec![])));
+                        main.push(p2(&mut b));
+                        "the first in a SUB, the second in the module"
+                    }
+                    _ => {
+                        main.push(p1(&mut b));
+                        let x = b.assign(var("X%"), bin(BinOp::Add, var("X%"), num(1)));
+                        main.push(x);
+                        main.push(b.s(K::Print { dev: Dev::Lpt, using: None, items: vec![E(st("lp"))] }));
+                        main.push(p2(&mut b));
+                        "an assignment and an LPRINT in between"
+                    }
+                };
+                main.push(b.print(vec![st("end")]));
+                out.push((Prog { main, subs, declare: true, ..Default::default() }, format!("PRINT {} then PRINT {}: {}", fl, sl, where_)));
+            }
+        }
+    }
+    out
+}
+
+// ---------------------------------------------------------------------------
 // Axis B: expressions and types. A snippet is a short statement list that sets
 // its own operands; snippets are batched into one program.
 // ---------------------------------------------------------------------------
